@@ -82,6 +82,8 @@ fn one(k: &mut Sink, input: &[u8]) {
                 k.fail(format!("check_buffer rejects a buffer that load_buffer accepts: hex {}", hex(input)));
             }
             if b { k.stat("check_true") }
+            // the Lean model of `check_arxml_header` answers the same request
+            k.put(&format!("chk {}", hex(input)), &format!("ok {b}"), !input.is_empty());
         }
     }
 }
@@ -174,6 +176,33 @@ pub fn run(out: &str, seed: u64, thorough: bool, _side: &str) {
         t.extend_from_slice(&doc);
         one(&mut k, &t);
     }
+    // 4b. entity-like fragments followed by multi-byte characters at every alignment, in string-typed character data, in an
+    // attribute value and in an attribute of the root element (which `check_buffer` reads too): code that slices the text at a
+    // fixed byte offset after `&#` panics when the offset falls inside a multi-byte character (seed C02_6)
+    {
+        let frags: [&str; 7] = ["&#", "&#x", "&", "&amp", "&#1", "&#x1F", "&#;"];
+        let wide: [&str; 4] = ["\u{e9}", "\u{20ac}", "\u{1f600}", "\u{e9}\u{20ac}"];
+        for fr in frags {
+            for pad in 0..20usize {
+                for wch in wide {
+                    let mut t = String::from(fr);
+                    for _ in 0..pad { t.push('a'); }
+                    for _ in 0..8 { t.push_str(wch); }
+                    for tail in ["", ";", "x;"] {
+                        let v = format!("{t}{tail}");
+                        let d1 = format!("{HEAD}<AR-PACKAGES><AR-PACKAGE><SHORT-NAME>p</SHORT-NAME><ADMIN-DATA><SDGS><SDG GID=\"g\"><SD GID=\"g\">{v}</SD></SDG></SDGS></ADMIN-DATA></AR-PACKAGE></AR-PACKAGES></AUTOSAR>");
+                        one(&mut k, d1.as_bytes());
+                        let d2 = format!("{HEAD}<AR-PACKAGES><AR-PACKAGE><SHORT-NAME>p</SHORT-NAME><ADMIN-DATA><SDGS><SDG GID=\"{v}\"/></SDGS></ADMIN-DATA></AR-PACKAGE></AR-PACKAGES></AUTOSAR>");
+                        one(&mut k, d2.as_bytes());
+                        let d3 = HEAD.replacen("xmlns=\"http://autosar.org/schema/r4.0\"", &format!("xmlns=\"{v}\""), 1) + "</AUTOSAR>";
+                        one(&mut k, d3.as_bytes());
+                        k.stat("entity_fragment_multibyte_cases");
+                    }
+                }
+            }
+        }
+    }
+
     // 5. moderately deep nesting in process (the extreme case runs in a child process, see `deep`)
     for depth in [10usize, 100, 300] {
         let mut t = HEAD.as_bytes().to_vec();
